@@ -451,10 +451,144 @@ pub fn run(ctx: &Ctx, rep: &mut Report) {
         },
         check_reload,
     );
+    // the name the REAL client asks for: URL host < --hostname < --tls-server-name (all combinations x one-SAN certificates)
+    ctx.enumerate(
+        rep,
+        "name-selection",
+        2 * 2 * 2 * 5 + 8,
+        20,
+        |i| {
+            if i < 40 {
+                NameCase { url_ip: i % 2 == 1, hostname: (i / 2) % 2 == 1, sni: (i / 4) % 2 == 1, san: (i / 8) as u8, skip_verify: false }
+            } else {
+                let j = i - 40;
+                NameCase { url_ip: j % 2 == 1, hostname: (j / 2) % 2 == 1, sni: (j / 4) % 2 == 1, san: 4, skip_verify: true }
+            }
+        },
+        check_name_selection,
+    );
     // the operator's path: SIGUSR1 to a real server_main (one scenario; the signal is process-wide, so it runs on its own)
     ctx.enumerate(rep, "reload-via-signal", 2, 2, |i| i as u8, check_signal_reload);
 }
 
+
+// ------------------------------------------------------------------ which name does the real client ask for?
+
+/// The statement's "requested server name" is chosen by the client from three places (client/ws_connect.rs): the URL host, the
+/// `--hostname` option (also the Host header) and `--tls-server-name`, the later overriding the earlier. This family runs the
+/// real client (`client_main_inner`) with a wss URL against a TLS + WebSocket listener of the harness whose leaf certificate
+/// carries exactly ONE subject alternative name: the tunnel may come up only if that SAN is the name the precedence rule
+/// selects (or verification is switched off), and the SNI the listener sees must be that name.
+#[derive(Clone, Debug, Hash, PartialEq, Eq, Serialize, Deserialize)]
+pub struct NameCase {
+    /// host in the URL: false = "localhost", true = "127.0.0.1"
+    pub url_ip: bool,
+    pub hostname: bool,
+    pub sni: bool,
+    /// 0 localhost, 1 127.0.0.1 (IP SAN), 2 alt.example, 3 sni.example, 4 other.example
+    pub san: u8,
+    pub skip_verify: bool,
+}
+const NAME_SANS: [&str; 5] = ["localhost", "127.0.0.1", "alt.example", "sni.example", "other.example"];
+
+pub fn check_name_selection(c: &NameCase) -> Outcome {
+    use rusty_penguin_lib::arg::{ClientArgs, LocalSpec, Protocol, Remote, RemoteSpec, ServerUrl};
+    use rusty_penguin_lib::client::{client_main_inner, HandlerResources};
+    use std::str::FromStr;
+    use std::sync::atomic::{AtomicBool, Ordering};
+    use std::sync::Mutex;
+    let selected = if c.sni { "sni.example" } else if c.hostname { "alt.example" } else if c.url_ip { "127.0.0.1" } else { "localhost" };
+    let expect_ok = c.skip_verify || NAME_SANS[c.san as usize] == selected;
+    let r: Result<(bool, Option<String>, String), String> = rt().block_on(async {
+        let files = Files::new();
+        let ca = make_ca("name ca", 0);
+        let leaf = make_leaf(&[NAME_SANS[c.san as usize].to_string()], "name leaf", Some(&ca), 0, false);
+        let (cert_path, key_path, ca_path) = (files.write("cert.pem", &leaf.0), files.write("key.pem", &leaf.1), files.write("ca.pem", &ca.pem));
+        let cfg = tls::make_server_config(&cert_path, &key_path, None).await.map_err(|e| format!("harness: server config: {e}"))?;
+        let listener = tokio::net::TcpListener::bind("127.0.0.1:0").await.map_err(|e| e.to_string())?;
+        let port = listener.local_addr().unwrap().port();
+        let accepted = Arc::new(AtomicBool::new(false));
+        let seen_sni: Arc<Mutex<Option<String>>> = Arc::new(Mutex::new(None));
+        let (acc2, sni2) = (accepted.clone(), seen_sni.clone());
+        let server = tokio::spawn(async move {
+            loop {
+                let Ok((stream, _)) = listener.accept().await else { continue };
+                let (cfg, acc3, sni3) = (cfg.clone(), acc2.clone(), sni2.clone());
+                tokio::spawn(async move {
+                    let acceptor = tokio_rustls::TlsAcceptor::from(Arc::new(cfg));
+                    let Ok(s) = acceptor.accept(stream).await else { return };
+                    *sni3.lock().unwrap() = s.get_ref().1.server_name().map(|x| x.to_string());
+                    let cb = |_req: &tokio_tungstenite::tungstenite::handshake::server::Request, mut resp: tokio_tungstenite::tungstenite::handshake::server::Response| {
+                        resp.headers_mut().insert("sec-websocket-protocol", http::HeaderValue::from_static("penguin-v7"));
+                        Ok(resp)
+                    };
+                    if let Ok(_ws) = tokio_tungstenite::accept_hdr_async(s, cb).await {
+                        acc3.store(true, Ordering::SeqCst);
+                        tokio::time::sleep(std::time::Duration::from_secs(30)).await;
+                    }
+                });
+            }
+        });
+        let uds = tmp_root().join(format!("c17n-{}-{:x}.sock", std::process::id(), vf_common::hash_of(c)));
+        let _ = std::fs::remove_file(&uds);
+        let url = format!("wss://{}:{port}/ws", if c.url_ip { "127.0.0.1" } else { "localhost" });
+        let args: &'static ClientArgs = Box::leak(Box::new(ClientArgs {
+            server: ServerUrl::from_str(&url).map_err(|e| format!("harness: url: {e}"))?,
+            remote: vec![Remote { local_addr: LocalSpec::DomainSocket(uds.clone()), remote_addr: RemoteSpec::Inet(("echo.invalid".to_string(), 7)), protocol: Protocol::Tcp }],
+            hostname: if c.hostname { Some(http::HeaderValue::from_static("alt.example")) } else { None },
+            tls_server_name: if c.sni { Some("sni.example".to_string()) } else { None },
+            tls_ca: Some(ca_path.clone()),
+            tls_skip_verify: c.skip_verify,
+            keepalive: penguin_mux::timing::OptionalDuration::NONE,
+            keepalive_timeout: penguin_mux::timing::OptionalDuration::NONE,
+            max_retry_count: 1,
+            max_retry_interval: 200,
+            handshake_timeout: penguin_mux::timing::OptionalDuration::from_secs(5),
+            ..Default::default()
+        }));
+        let (hr, stream_rx, dgram_rx) = HandlerResources::create();
+        let hr: &'static HandlerResources = Box::leak(Box::new(hr));
+        let mut client = tokio::spawn(async move { client_main_inner(args, hr, stream_rx, dgram_rx).await.map_err(|e| format!("{e:?}")) });
+        let t0 = std::time::Instant::now();
+        let mut client_end = String::new();
+        loop {
+            if accepted.load(Ordering::SeqCst) {
+                break;
+            }
+            if client.is_finished() {
+                client_end = match (&mut client).await { Ok(Ok(())) => "Ok".into(), Ok(Err(e)) => e, Err(e) => format!("join: {e}") };
+                break;
+            }
+            if t0.elapsed() > std::time::Duration::from_secs(15) {
+                client.abort();
+                server.abort();
+                let _ = std::fs::remove_file(&uds);
+                return Err("neither an established tunnel nor a client error within 15 s".to_string());
+            }
+            tokio::time::sleep(std::time::Duration::from_millis(5)).await;
+        }
+        client.abort();
+        server.abort();
+        let _ = std::fs::remove_file(&uds);
+        let sni = seen_sni.lock().unwrap().clone();
+        Ok((accepted.load(Ordering::SeqCst), sni, client_end))
+    });
+    let (ok, sni, client_end) = match r {
+        Ok(x) => x,
+        Err(e) => return Outcome::inconclusive(e),
+    };
+    let desc = format!("URL host {}, --hostname {}, --tls-server-name {}, leaf SAN {}, skip-verify {}", if c.url_ip { "127.0.0.1" } else { "localhost" }, if c.hostname { "alt.example" } else { "-" }, if c.sni { "sni.example" } else { "-" }, NAME_SANS[c.san as usize], c.skip_verify);
+    if ok && !expect_ok {
+        return Outcome::violation("c17-name:unauthenticated-server-accepted", format!("{desc}: the name to verify is {selected}, the certificate is for another name, yet the tunnel was established"));
+    }
+    if !ok && expect_ok {
+        return Outcome::violation("c17-name:valid-server-rejected", format!("{desc}: the name to verify is {selected} and the certificate is valid for it, but the client gave up with {client_end}"));
+    }
+    if ok && !(selected.parse::<std::net::IpAddr>().is_ok()) && sni.as_deref() != Some(selected) {
+        return Outcome::violation("c17-name:wrong-sni", format!("{desc}: the server saw SNI {sni:?}, the requested name is {selected}"));
+    }
+    Outcome::pass(!expect_ok || c.hostname || c.sni, vec![if expect_ok { "name-selected-matches" } else { "name-selected-does-not-match" }])
+}
 
 // ------------------------------------------------------------------ reload through the real server and its SIGUSR1 handler
 
